@@ -452,6 +452,15 @@ func (m *Machine) draw0(t *rapid.T, g *GenOpts) Action {
 			}
 		}
 		a.Amount = drawAmount(t, g, avail, "nstwd").String()
+	case "extHold":
+		a.N = uniform(t, 8, "record")
+		held := false
+		for _, n := range m.ExtHolds {
+			if n > 0 {
+				held = true
+			}
+		}
+		a.Neg = held && pct(t, 45, "release?")
 	case "nstUpdate":
 		a.Asset = m.nstAsset()
 		// precondition of the real caller (the oracle): the staker has an NST deposit record
